@@ -52,7 +52,7 @@ StepOK(pre, ev, post) ==
   IN /\ ~Has(ev, "harness_error") /\ ev.big = 0
      /\ ok \/ threw                                         \* never a foreign exception
      /\ For("C10") => /\ PoolValid(post)
-                      /\ (ok /\ c.op \in {"Move", "MoveAssign"} => MovedFromOK(pre[c.src], post[c.src]))
+                      /\ (ok /\ c.op \in {"Move", "MoveAssign"} => TargetOK(pre, c, post))
                       /\ (ok => RvOK(pre, c, post))                    \* an operand given as an rvalue: untouched or moved-from
      /\ For("C14") => /\ IF ok THEN Unchanged(pre, post, Others(pre, Targets(c))) /\ RvOK(pre, c, post) ELSE post = pre
                       /\ ev.alias = 0 /\ ev.heap_changed = 0
